@@ -1390,6 +1390,120 @@ def stream_io_delegation(ctx, rid):
         sg = [path_sig(p)[1] for p in nonpanic(walk(f))]
         ctx.check(rid, "%s::%s delegates unchanged" % (ty, nm), sg == ["return await(%s)" % inner], "%s::%s does not delegate unchanged: %s" % (ty, nm, sg), where(f))
 
+
+# ------------------------------------------------------------------ quinn <-> wtransport identifier conversions and the id accessors above them
+
+def id_conversions(ctx, rid):
+    """varint_q2w / varint_w2q / streamid_q2w pass the 62-bit value through unchanged (no re-assembly from parts, no narrowing)"""
+    A = ctx.A
+    for nm, src, dst in (("varint_q2w", r"quinn(_proto)?::(varint::)?VarInt::into_inner", "wtransport_proto::varint::VarInt::from_u64_unchecked"),
+                         ("varint_w2q", r"wtransport_proto::varint::VarInt::into_inner", r"quinn(_proto)?::(varint::)?VarInt::from_u64_unchecked")):
+        f = A.fn("wtransport::driver::utils::%s" % nm)
+        ok = False
+        for p in nonpanic(walk(f)):
+            leaf = p.leaf[1]
+            if isinstance(leaf, tuple) and leaf[0] == "call" and re.search(dst, leaf[1]) and len(leaf[2]) == 1:
+                a = leaf[2][0]
+                if isinstance(a, tuple) and a[0] == "call" and re.search(src, a[1]) and a[2] == (("p", 1, "varint"),):
+                    ok = True
+        ctx.check(rid, nm, ok, "%s does not return <other>::VarInt::from_u64_unchecked(varint.into_inner())" % nm, where(f))
+    f = A.fn("wtransport::driver::utils::streamid_q2w")
+    STOPQ = re.compile(r"^wtransport_proto::(varint::VarInt|ids::StreamId)::|^quinn|^<impl .*From<quinn")
+    sg = [path_sig(p)[1] for p in nonpanic(walk(f, inline=STOPQ))]
+    ctx.check(rid, "streamid_q2w", sg == ["return StreamId::new(VarInt::from_u64_unchecked(VarInt::into_inner(<impl From<StreamId> for VarInt>::from(stream_id))))"],
+              "streamid_q2w does not take the QUIC stream id verbatim (quinn::VarInt::from(stream_id).into_inner()): %s" % sg, where(f))
+
+
+def id_accessors(ctx, rid):
+    """every `id()` of a stream handle is the QUIC id of its own quinn stream through streamid_q2w, every `session_id()` of a driver-level
+    WebTransport stream is the one its proto typestate parsed from the preamble"""
+    A = ctx.A
+    want = {
+        r"^wtransport::stream::SendStream::id$": r"^return QuicSendStream::id\(self\.0\)$",
+        r"^wtransport::stream::RecvStream::id$": r"^return QuicRecvStream::id\(self\.0\)$",
+        r"^wtransport::driver::streams::QuicSendStream::id$": r"^return streamid_q2w\(SendStream::id\(self\.0\)\)$",
+        r"^wtransport::driver::streams::QuicRecvStream::id$": r"^return streamid_q2w\(RecvStream::id\(self\.0\)\)$",
+        r"^wtransport::driver::streams::(biremote|bilocal|session)::<impl .*>::id$": r"^return QuicSendStream::id\(self\.stream\.0\)$",
+        r"^wtransport::driver::streams::(uniremote|unilocal)::<impl .*>::id$": r"^return Quic(Recv|Send)Stream::id\(self\.stream\)$",
+        r"^wtransport::driver::streams::(biremote|bilocal|uniremote|unilocal)::<impl .*types::WT>>>::session_id$": r"^return <impl Stream<\w+, WT>>::session_id\(self\.proto\)$",
+        r"^wtransport_proto::stream::(biremote|bilocal|uniremote|unilocal)::<impl .*types::WT>>::session_id$": r"^return WT::session_id\(self\.stage\)$",
+        r"^wtransport_proto::stream::types::WT::session_id$": r"^return self\.session_id$",
+        r"^wtransport::connection::Connection::session_id$": r"^return self\.session_id$",
+        r"^wtransport::datagram::Datagram::session_id$": r"^return self\.session_id$",
+    }
+    n = 0
+    for g in A.fn_list:
+        if not g.body or "::tests::" in g.path:
+            continue
+        for pat, w in want.items():
+            if re.match(pat, g.path):
+                n += 1
+                sg = [path_sig(p)[1] for p in nonpanic(walk(g))]
+                ctx.check(rid, "id accessor", len(sg) == 1 and re.match(w, sg[0]) is not None, "%s does not return the identifier of its own stream / preamble: %s" % (g.path, sg), where(g),
+                          key="id accessor|%s" % re.sub(r"wtransport(_proto)?::|stream::types::|driver::streams::", "", g.path))
+                break
+    ctx.floor(rid, "id / session_id accessors", n, 18)
+
+
+# ------------------------------------------------------------------ table-driven check of thin forwarding functions
+
+def forwarders(ctx, rid, table, what):
+    """`table`: {function path (regex): (expected normal form of the single non-panicking path (regex), [required event regexes])}.
+    Thin accessors / forwarders carry a value from where it is stored to where the user reads it; the property holds only if each of them
+    returns exactly that value, so each is compared with its reviewed normal form (borrows, `?` vs match, helper inlining are invisible)."""
+    A = ctx.A
+    n = 0
+    for pat, (leaf, evs) in table.items():
+        fs = [g for g in A.fn_list if g.body and re.match(pat, g.path) and "::tests::" not in g.path]
+        if not fs:
+            ctx.check(rid, "%s: anchor" % what, False, "cannot decide: no function matches %s" % pat, key="%s|anchor|%s" % (what, pat))
+            continue
+        for g in fs:
+            ps = nonpanic(walk(g))
+            sg = [path_sig(p)[1] for p in ps]
+            if len(sg) == 1 and sg[0].startswith("return coroutine:"):
+                continue   # the shell of an `async fn`: its body is the {closure#0} the other rules read
+            n += 1
+            ev = [e for p in ps for e in event_strs(p)]
+            ok = len(sg) == 1 and re.match(leaf, sg[0]) is not None and all(any(re.match(r, e) for e in ev) for r in evs)
+            ctx.check(rid, "%s forwarder" % what, ok, "%s is %s%s, expected %s%s" % (g.path, sg, (" with effects %s" % ev[:4]) if evs else "", leaf, (" with " + " , ".join(evs)) if evs else ""),
+                      where(g), key="%s|%s" % (what, re.sub(r"wtransport(_proto)?::|stream::types::|driver::streams::", "", g.path)))
+    return n
+
+
+# ------------------------------------------------------------------ the driver's stream typestate layer forwards to the proto typestate and keeps its quinn stream
+
+def driver_stream_layer(ctx, rid):
+    """`driver::streams::Stream<quinn stream(s), proto typestate>`: every stage transition keeps the *same* quinn stream and advances only the
+    proto typestate; read_frame / stop / stopped / kind / request forward to the layer below with the stream's own halves; the accept / open
+    constructors wrap exactly the stream quinn returned; the `is_empty` predicates of the critical-stream slots mean `stream.is_none()`."""
+    S2 = r"\(QuicSendStream\(ok\(Result::ok\(await\(Connection::%s\(quic_connection\)\)\)\)\.0\),QuicRecvStream\(ok\(Result::ok\(await\(Connection::%s\(quic_connection\)\)\)\)\.1\)\)"
+    table = {
+        r"^wtransport::driver::streams::(biremote|bilocal|uniremote|unilocal)::<impl .*types::(Quic|H3)>>>::upgrade$": (r"^return streams::Stream\(self\.stream,<impl Stream<\w+, \w+>>::upgrade\(self\.proto(,session_id)?\)\)$", []),
+        r"^wtransport::driver::streams::(biremote|bilocal)::<impl .*types::H3>>>::into_session$": (r"^return streams::Stream\(self\.stream,<impl Stream<\w+, H3>>::into_session\(self\.proto,session_request\)\)$", []),
+        r"^wtransport::driver::streams::(biremote|bilocal|uniremote|unilocal)::<impl .*types::WT>>>::into_stream$": (r"^return self\.stream$", []),
+        r"^wtransport::driver::streams::(biremote|session)::<impl .*>::read_frame::\{closure#0\}$": (r"^return await\(<impl Stream<\w+, \w+>>::read_frame_async\(self\.proto,self\.stream\.1\)\)$", []),
+        r"^wtransport::driver::streams::uniremote::<impl .*>::read_frame::\{closure#0\}$": (r"^return await\(<impl Stream<UniRemote, H3>>::read_frame_async\(self\.proto,self\.stream\)\)$", []),
+        r"^wtransport::driver::streams::(biremote|session)::<impl .*>::stop$": (r"^return QuicRecvStream::stop\(self\.stream\.1,error_code\)$", []),
+        r"^wtransport::driver::streams::unilocal::<impl .*>::stopped::\{closure#0\}$": (r"^return await\(QuicSendStream::stopped\(self\.stream\)\)$", []),
+        r"^wtransport::driver::streams::(uniremote|unilocal)::<impl .*types::H3>>>::kind$": (r"^return <impl Stream<\w+, H3>>::kind\(self\.proto\)$", []),
+        r"^wtransport::driver::streams::biremote::<impl .*types::Quic>>>::accept_bi::\{closure#0\}$": None,
+        r"^wtransport::driver::streams::(connect::ConnectStream|qpack::RemoteQPack(Enc|Dec)Stream|settings::(Local|Remote)SettingsStream)::is_empty$": (r"^return Option::is_none\(self\.stream\)$", []),
+        r"^wtransport::driver::streams::(connect::ConnectStream|qpack::RemoteQPack(Enc|Dec)Stream|settings::(Local|Remote)SettingsStream)::set_stream$": (r"^return \(\)$", [r"^store self\.stream := Option::Some\(stream\)$"]),
+        r"^wtransport::driver::streams::session::<impl .*types::Session>>>::finish::\{closure#0\}$": (r"^return \(\)$", [r"^await QuicSendStream::finish\(self\.stream\.0\)$"]),
+        r"^wtransport::driver::streams::session::<impl .*types::Session>>>::reset$": (r"^return \(\)$", [r"^QuicSendStream::reset\(self\.stream\.0,error_code\)$"]),
+    }
+    A = ctx.A
+    n = forwarders(ctx, rid, {k: v for k, v in table.items() if v is not None}, "driver stream layer")
+    for nm, mod, role, two in (("accept_bi", "biremote", "BiRemote", True), ("open_bi", "bilocal", "BiLocal", True), ("accept_uni", "uniremote", "UniRemote", False), ("open_uni", "unilocal", "UniLocal", False)):
+        f = A.find1(r"^wtransport::driver::streams::%s::<impl .*types::Quic>>>::%s::\{closure#0\}$" % (mod, nm))
+        sg = sorted(path_sig(p)[1] for p in nonpanic(walk(f)))
+        inner = (S2 % (nm, nm)) if two else (r"Quic(Recv|Send)Stream\(ok\(Result::ok\(await\(Connection::%s\(quic_connection\)\)\)\)\)" % nm)
+        ok = len(sg) == 2 and sg[0] == "return Option::None" and re.match(r"^return Option::Some\(streams::Stream\(%s,<impl Stream<%s, Quic>>::%s\(\)\)\)$" % (inner, role, nm), sg[1]) is not None
+        n += 1
+        ctx.check(rid, "driver stream layer forwarder", ok, "driver %s::%s does not wrap exactly the stream quinn returned (or None on failure): %s" % (mod, nm, sg), where(f), key="driver stream layer|%s::%s" % (mod, nm))
+    ctx.floor(rid, "driver stream layer functions", n, 35)
+
 # ------------------------------------------------------------------ public accept wrappers delegate before anything else
 
 def accept_wrappers(ctx, rid):
